@@ -70,7 +70,9 @@ def roundtrip_problem(c, d, out):
 def run(ctx):
     ctx.proof_step(PROPS_FILE)
     n = 60 if ctx.tier == "quick" else 800
-    cases = build_cases(ctx, n, None, CLASSES, "c02x", docs_per=3 if ctx.tier == "quick" else 5, max_docs=60)
+    from props import c05
+    sysm = c05.e2e_fractional() + c05.e2e_systematic(ctx)[::11]
+    cases = build_cases(ctx, len(sysm) + n, None, CLASSES, "c02x", docs_per=3 if ctx.tier == "quick" else 5, max_docs=60, extra_schemas=sysm)
     run_cases(ctx, cases, "c02")
     nv = evaluate(ctx, cases, CLASSES, {k: "valid" for k in CLASSES}, "valid documents")
     for c in cases:
@@ -92,7 +94,7 @@ def run(ctx):
                 nv += 1
                 break
     replay_findings(ctx)
-    ctx.cov["rule"] = ("random in-guard schemas over every kind (constrained strings, integers, numbers, booleans, enums, formats, arrays to depth 3, nested objects, maps, "
+    ctx.cov["rule"] = ("numeric systematic schemas (incl. fractional bounds on integers in the exact quadrant) and random in-guard schemas over every kind (constrained strings, integers, numbers, booleans, enums, formats, arrays to depth 3, nested objects, maps, "
                        "references, untyped, typed additionalProperties) x every position; per schema 3-5 documents built from the schema (boundary values of every constraint, "
                        "optional properties present/absent, null where allowed, additional keys) plus their validity-preserving mutants; oracle: accepted, every non-empty declared "
                        "value re-marshals unchanged, undeclared keys are exactly the additional-properties map; non-trivial = non-empty document; distinct by hash")
